@@ -767,3 +767,233 @@ Proof.
   repeat split; vm_compute; reflexivity.
 Qed.
 End ExamplesDyn.
+
+(* ---------- 5. two-level stacks, by composition ---------- *)
+(* at most one upper coordinate contributes at a full point *)
+Theorem occ_dyn_upper_unique : forall Lo r r1 r0 n k Li tm,
+  ~ In r Lo -> ~ In r1 Lo -> r1 <> r0 -> wf_outer Lo (occ_state_ok r r1 r0 n k Li) [tm] ->
+  forall p u, sum_at (upd p r1 u) (run_then_split Lo (occ_split r r1 r0 n k) Li [tm]) <> 0 ->
+  part_of (leader_bounds n k (reach_term Lo p tm)) (p r0) = Some u.
+Proof.
+  intros Lo r r1 r0 n k Li tm Hr Hr1 Hne Hwf p u Hnz.
+  rewrite (occ_dyn_sound Lo r r1 r0 n k Li tm Hr Hwf) in Hnz.
+  assert (E : reach_term Lo (upd p r1 u) tm = reach_term Lo p tm).
+  { apply reach_term_ext. intros x Hx. unfold upd. destruct (String.eqb_spec x r1) as [->|_]; [contradiction|reflexivity]. }
+  rewrite E in Hnz.
+  destruct (occ_consistent (leader_bounds n k (reach_term Lo p tm)) r1 r0 (upd p r1 u)) eqn:Ec; [|congruence].
+  eapply occ_consistent_unique; eassumption.
+Qed.
+
+(* occupancy beneath a shape split: r is split by step s into (r2, rx) (statically, NestPart.part_tstate), then - after
+   the outer levels Lo, r2 among them - rx is occupancy-split into (r1, r0) *)
+Theorem occ_beneath_shape_sound : forall Lo r r2 rx s r1 r0 n k Li (tm : term),
+  (forall t, In t tm -> NoDup (rem t)) -> existsb (holds r) tm = true ->
+  let tm1 : term := map (part_tstate r r2 rx s) tm in
+  ~ In rx Lo -> wf_outer Lo (occ_state_ok rx r1 r0 n k Li) [tm1] ->
+  forall p, sum_at p (run_then_split Lo (occ_split rx r1 r0 n k) Li [tm1]) =
+            if occ_consistent (leader_bounds n k (reach_term Lo p tm1)) r1 r0 p && consistent r2 rx s (collapse rx r0 p)
+            then term_den tm (collapse r rx (collapse rx r0 p)) else 0.
+Proof.
+  intros Lo r r2 rx s r1 r0 n k Li tm Hnd Hh tm1 Hrx Hwf p.
+  rewrite (occ_dyn_sound Lo rx r1 r0 n k Li tm1 Hrx Hwf p).
+  destruct (occ_consistent (leader_bounds n k (reach_term Lo p tm1)) r1 r0 p); cbn [andb]; [|reflexivity].
+  unfold tm1. rewrite (term_den_part r r2 rx s tm _ Hnd), Hh. reflexivity.
+Qed.
+
+(* occupancy beneath occupancy: after Lo1, r is occupancy-split (leader k2, chunks of n2) into (r2, rx); after the further
+   levels Lo2 (r2 among them), rx is occupancy-split (leader k1, chunks of n1) into (r1, r0); then Li *)
+
+
+Theorem occ_beneath_occ_sound : forall Lo1 r r2 rx n2 k2 Lo2 r1 r0 n1 k1 Li tm,
+  ~ In r Lo1 -> ~ In rx Lo1 -> ~ In rx Lo2 ->
+  wf_outer Lo1 (occ2_state_ok r r2 rx n2 k2 Lo2 r1 r0 n1 k1 Li) [tm] ->
+  forall p,
+  let tmA := reach_term Lo1 p tm in
+  let tmB := occ_split r r2 rx n2 k2 tmA in
+  sum_at p (run_split_split Lo1 (occ_split r r2 rx n2 k2) Lo2 (occ_split rx r1 r0 n1 k1) Li [tm]) =
+  if occ_consistent (leader_bounds n1 k1 (reach_term Lo2 p tmB)) r1 r0 p
+     && occ_consistent (leader_bounds n2 k2 tmA) r2 rx (collapse rx r0 p)
+  then term_den tm (collapse r rx (collapse rx r0 p)) else 0.
+Proof.
+  intros Lo1 r r2 rx n2 k2 Lo2 r1 r0 n1 k1 Li tm Hr Hrx1 Hrx2 Hwf p tmA tmB.
+  unfold run_split_split. rewrite run_k_sum.
+  set (q := collapse r rx (collapse rx r0 p)).
+  assert (Hq : forall x, In x Lo1 -> q x = p x).
+  { intros x Hx. unfold q. rewrite (collapse_outer r rx _ Lo1 Hr x Hx). apply (collapse_outer rx r0 p Lo1 Hrx1 x Hx). }
+  destruct (along Lo1 p [tm]) eqn:Ea.
+  - pose proof (wf_outer_reach Lo1 _ [tm] p Hwf) as [Hok Hwf2]. rewrite reach_single in *. fold tmA in Hok, Hwf2 |- *.
+    cbn [map]. fold tmB. destruct (Hok _ (or_introl eq_refl)) as [Hto Hld].
+    specialize (Hwf2 _ (or_introl eq_refl)). fold tmB in Hwf2.
+    rewrite (occ_dyn_sound Lo2 rx r1 r0 n1 k1 Li tmB Hrx2 Hwf2 p).
+    destruct (occ_consistent (leader_bounds n1 k1 (reach_term Lo2 p tmB)) r1 r0 p); cbn [andb]; [|reflexivity].
+    unfold tmB. rewrite (term_den_occ_split r r2 rx n2 k2 tmA _ Hto Hld).
+    destruct (occ_consistent (leader_bounds n2 k2 tmA) r2 rx (collapse rx r0 p)); [|reflexivity].
+    pose proof (body_den_reach Lo1 p q [tm] Hq) as E. rewrite reach_single in E. fold tmA in E.
+    cbn [body_den fold_right] in E. fold q. lia.
+  - pose proof (not_along_zero Lo1 _ p q [tm] Hwf Hq Ea) as E. cbn [body_den fold_right] in E. fold q.
+    destruct (_ && _); lia.
+Qed.
+
+(* ---------- static validator for occupancy beneath occupancy ---------- *)
+
+Lemma sortedb_complete l : StronglySorted Z.lt l -> sortedb l = true.
+Proof.
+  induction 1 as [|a l Hs IH Hall]; [reflexivity|]. cbn [sortedb]. rewrite IH, andb_true_r.
+  destruct l as [|b l]; [reflexivity|]. inversion Hall; subst. apply Z.ltb_lt. assumption.
+Qed.
+
+Lemma keys_bounds_split_in u bs l : In u (keys (bounds_split bs l)) -> In u bs.
+Proof.
+  induction bs as [|b bs IH]; cbn [bounds_split]; [intros []|].
+  destruct (filter (fun ct : coord * trie => in_window b bs (fst ct)) l).
+  - intros H. right. apply IH. exact H.
+  - cbn [keys map fst]. intros [<-|H]; [left; reflexivity|right; apply IH; exact H].
+Qed.
+
+Lemma keys_bounds_split_sorted bs l : StronglySorted Z.lt bs -> StronglySorted Z.lt (keys (bounds_split bs l)).
+Proof.
+  induction 1 as [|b bs Hs IH Hall]; cbn [bounds_split]; [constructor|].
+  destruct (filter (fun ct : coord * trie => in_window b bs (fst ct)) l); [exact IH|].
+  cbn [keys map fst]. constructor; [exact IH|]. apply Forall_forall. intros u Hu.
+  rewrite Forall_forall in Hall. apply Hall. eapply keys_bounds_split_in. exact Hu.
+Qed.
+
+Lemma keys_filter_sorted (f : coord * trie -> bool) l : StronglySorted Z.lt (keys l) -> StronglySorted Z.lt (keys (filter f l)).
+Proof.
+  induction l as [|ct l IH]; cbn [keys map filter]; intros H; [constructor|].
+  inversion H as [|? ? Hs Hall]; subst. specialize (IH Hs). destruct (f ct); [|exact IH].
+  cbn [map]. constructor; [exact IH|]. apply Forall_forall. intros u Hu.
+  rewrite Forall_forall in Hall. apply Hall. unfold keys in Hu. apply in_map_iff in Hu as [x [<- Hx]].
+  apply filter_In in Hx as [Hx _]. apply in_map. exact Hx.
+Qed.
+
+Lemma forallb_filter {A} (g f : A -> bool) l : forallb g l = true -> forallb g (filter f l) = true.
+Proof.
+  induction l as [|x l IH]; cbn [forallb filter]; [reflexivity|]. intros H. apply andb_true_iff in H as [H1 H2].
+  destruct (f x); [cbn [forallb]; rewrite H1; apply IH; exact H2|apply IH; exact H2].
+Qed.
+
+Lemma tsortedb_filter (f : coord * trie -> bool) l : tsortedb (Node l) = true -> tsortedb (Node (filter f l)) = true.
+Proof.
+  rewrite !tsortedb_node. intros H. apply andb_true_iff in H as [H1 H2]. apply andb_true_iff. split.
+  - apply sortedb_complete, keys_filter_sorted, sortedb_sound. exact H1.
+  - apply forallb_filter. exact H2.
+Qed.
+
+Lemma tsortedb_bounds_split bs l : StronglySorted Z.lt bs -> tsortedb (Node l) = true ->
+  tsortedb (Node (bounds_split bs l)) = true.
+Proof.
+  intros Hs Hl. rewrite tsortedb_node. apply andb_true_iff. split.
+  - apply sortedb_complete, keys_bounds_split_sorted. exact Hs.
+  - clear Hs. induction bs as [|b bs IH]; cbn [bounds_split]; [reflexivity|].
+    destruct (filter (fun ct : coord * trie => in_window b bs (fst ct)) l) as [|x sel] eqn:E; [exact IH|].
+    cbn [forallb snd]. rewrite IH, andb_true_r. rewrite <- E. apply tsortedb_filter. exact Hl.
+Qed.
+
+Lemma tsortedb_occ_tstate r r1 r0 bs t : StronglySorted Z.lt bs -> tsortedb (cur t) = true ->
+  tsortedb (cur (occ_tstate r r1 r0 bs t)) = true.
+Proof.
+  intros Hs Ht. unfold occ_tstate. destruct t as [rs cu]; cbn [rem cur] in *. destruct rs as [|x rest]; [exact Ht|].
+  destruct (String.eqb x r); cbn [cur]; [|exact Ht]. apply tsortedb_bounds_split; [exact Hs|].
+  destruct cu as [v|l]; [reflexivity|exact Ht].
+Qed.
+
+Lemma occ2_dyn_okb_notin Lo1 r r2 rx k2 Lo2 r1 r0 k1 Li sh : occ2_dyn_okb Lo1 r r2 rx k2 Lo2 r1 r0 k1 Li sh = true ->
+  ~ In r Lo1 /\ ~ In rx Lo1 /\ ~ In rx Lo2.
+Proof.
+  revert sh; induction Lo1 as [|x Lo1 IH]; intros sh H; cbn [occ2_dyn_okb] in H.
+  - apply andb_true_iff in H as [_ H]. split; [intros []|]. split; [intros []|]. eapply occ_dyn_okb_notin. exact H.
+  - apply andb_true_iff in H as [H H4]. apply andb_true_iff in H as [H _]. apply andb_true_iff in H as [H1 H2].
+    apply negb_true_iff, String.eqb_neq in H1. apply negb_true_iff, String.eqb_neq in H2.
+    destruct (IH _ H4) as [Ha [Hb Hc]]. split; [intros [E|Hin]; [contradiction|exact (Ha Hin)]|].
+    split; [intros [E|Hin]; [contradiction|exact (Hb Hin)]|exact Hc].
+Qed.
+
+Theorem occ2_dyn_okb_wf : forall Lo1 r r2 rx n2 k2 Lo2 r1 r0 n1 k1 Li tm,
+  occ2_dyn_okb Lo1 r r2 rx k2 Lo2 r1 r0 k1 Li (map rem tm) = true ->
+  (forall ld, nth_error tm k2 = Some ld -> tsortedb (cur ld) = true) ->
+  (forall ld, nth_error tm k1 = Some ld -> tsortedb (cur ld) = true) ->
+  wf_outer Lo1 (occ2_state_ok r r2 rx n2 k2 Lo2 r1 r0 n1 k1 Li) [tm].
+Proof.
+  induction Lo1 as [|x Lo1 IH]; intros r r2 rx n2 k2 Lo2 r1 r0 n1 k1 Li tm H Hs2 Hs1; cbn [occ2_dyn_okb wf_outer] in *.
+  - apply andb_true_iff in H as [H H3]. apply andb_true_iff in H as [H1 H2].
+    assert (Hto : term_ok r tm).
+    { intros t Ht. rewrite forallb_forall in H1. specialize (H1 (rem t) (in_map rem tm t Ht)).
+      destruct (rems_okb_sound r (rem t) H1) as [Hnd Hh]. split; [exact Hnd|].
+      intros Hho. rewrite participates_heads. apply Hh. apply holds_in. exact Hho. }
+    assert (Hld : leader_ok r k2 tm).
+    { rewrite nth_error_map in H2. destruct (nth_error tm k2) as [ld|] eqn:E; cbn [option_map] in H2; [|discriminate].
+      exists ld. split; [exact E|]. split; [rewrite participates_heads; exact H2|].
+      apply sortedb_sound, tsortedb_children, Hs2. reflexivity. }
+    split; [intros tm' [<-|[]]; split; assumption|].
+    intros tm' [<-|[]]. apply occ_dyn_okb_wf.
+    + rewrite rems_occ_split. exact H3.
+    + intros ld' E. unfold occ_split, split_term_at in E. rewrite nth_error_map in E.
+      destruct (nth_error tm k1) as [ld|] eqn:E1; cbn [option_map] in E; [|discriminate]. injection E as <-.
+      apply tsortedb_occ_tstate; [eapply leader_bounds_sorted; exact Hld|apply Hs1; reflexivity].
+  - apply andb_true_iff in H as [H H4]. apply andb_true_iff in H as [_ H3]. split.
+    + intros tm' [<-|[]]. apply existsb_exists in H3 as [rs [Hin Hh]]. apply in_map_iff in Hin as [t [<- Ht]].
+      exists t. split; [exact Ht|]. rewrite participates_heads. exact Hh.
+    + intros c. cbn [map]. apply IH.
+      * rewrite rems_step_term. exact H4.
+      * intros ld' E. eapply tsortedb_step_nth; [|exact E]. exact Hs2.
+      * intros ld' E. eapply tsortedb_step_nth; [|exact E]. exact Hs1.
+Qed.
+
+Theorem occ2_dyn_okb_sound : forall Lo1 r r2 rx n2 k2 Lo2 r1 r0 n1 k1 Li tm,
+  occ2_dyn_okb Lo1 r r2 rx k2 Lo2 r1 r0 k1 Li (map rem tm) = true ->
+  (forall ld, nth_error tm k2 = Some ld -> tsortedb (cur ld) = true) ->
+  (forall ld, nth_error tm k1 = Some ld -> tsortedb (cur ld) = true) ->
+  forall p,
+  let tmA := reach_term Lo1 p tm in
+  let tmB := occ_split r r2 rx n2 k2 tmA in
+  sum_at p (run_split_split Lo1 (occ_split r r2 rx n2 k2) Lo2 (occ_split rx r1 r0 n1 k1) Li [tm]) =
+  if occ_consistent (leader_bounds n1 k1 (reach_term Lo2 p tmB)) r1 r0 p
+     && occ_consistent (leader_bounds n2 k2 tmA) r2 rx (collapse rx r0 p)
+  then term_den tm (collapse r rx (collapse rx r0 p)) else 0.
+Proof.
+  intros Lo1 r r2 rx n2 k2 Lo2 r1 r0 n1 k1 Li tm H Hs2 Hs1.
+  destruct (occ2_dyn_okb_notin _ _ _ _ _ _ _ _ _ _ _ H) as [Ha [Hb Hc]].
+  apply occ_beneath_occ_sound; try assumption. apply occ2_dyn_okb_wf; assumption.
+Qed.
+
+Section ExamplesStack.
+Local Open Scope string_scope.
+(* Z = A[k] * B[k]; K: [uniform_shape(4), uniform_occupancy(A.2)]: K -> (K2, KX) by shape, then beneath K2 the rank KX is
+   occupancy-partitioned into (K1, K0).  A = {0,1,2,5,6,7,9}, B = {1,2,4,6,9,10}: under K2 = 4 the boundaries are {5,7} and
+   B's 4 lies below the first boundary *)
+Definition exs_A : tstate := {| rem := ["K"]; cur := Node [(0, Leaf 1); (1, Leaf 2); (2, Leaf 3); (5, Leaf 4); (6, Leaf 5); (7, Leaf 6); (9, Leaf 7)] |}.
+Definition exs_B : tstate := {| rem := ["K"]; cur := Node [(1, Leaf 10); (2, Leaf 20); (4, Leaf 30); (6, Leaf 40); (9, Leaf 50); (10, Leaf 60)] |}.
+Definition exs_tm1 : term := map (part_tstate "K" "K2" "KX" 4) [exs_A; exs_B].
+
+Example occ_beneath_shape_example :
+  occ_dyn_okb ["K2"] "KX" "K1" "K0" 0 ["K1"; "K0"] (map rem exs_tm1) = true /\
+  (forall ld, nth_error exs_tm1 0 = Some ld -> tsortedb (cur ld) = true) /\
+  (forall t, In t [exs_A; exs_B] -> NoDup (rem t)) /\ existsb (holds "K") [exs_A; exs_B] = true /\
+  run_then_split ["K2"] (occ_split "KX" "K1" "K0" 2 0) ["K1"; "K0"] [exs_tm1] =
+    [([("K2", 0); ("K1", 0); ("K0", 1)], 20); ([("K2", 0); ("K1", 2); ("K0", 2)], 60);
+     ([("K2", 4); ("K1", 5); ("K0", 6)], 200); ([("K2", 8); ("K1", 9); ("K0", 9)], 350)].
+Proof.
+  split; [vm_compute; reflexivity|]. split; [intros ld E; injection E as <-; vm_compute; reflexivity|].
+  split; [intros t [<-|[<-|[]]]; repeat constructor; intros []|]. split; vm_compute; reflexivity.
+Qed.
+
+(* Z[i] = A[i,k] * B[k]; K: [uniform_occupancy(A.4), uniform_occupancy(A.2)] beneath I *)
+Definition exs_A2 : tstate := {| rem := ["I"; "K"];
+  cur := Node [(0, Node [(0, Leaf 1); (1, Leaf 2); (2, Leaf 3); (5, Leaf 4); (6, Leaf 5); (7, Leaf 6); (9, Leaf 7)]);
+               (1, Node [(2, Leaf 1); (4, Leaf 2); (10, Leaf 3)])] |}.
+Definition exs_tm2 : term := [exs_A2; exs_B].
+
+Example occ_beneath_occ_example :
+  occ2_dyn_okb ["I"] "K" "K2" "KX" 0 ["K2"] "K1" "K0" 0 ["K1"; "K0"] (map rem exs_tm2) = true /\
+  (forall ld, nth_error exs_tm2 0 = Some ld -> tsortedb (cur ld) = true) /\
+  run_split_split ["I"] (occ_split "K" "K2" "KX" 4 0) ["K2"] (occ_split "KX" "K1" "K0" 2 0) ["K1"; "K0"] [exs_tm2] =
+    [([("I", 0); ("K2", 0); ("K1", 0); ("K0", 1)], 20); ([("I", 0); ("K2", 0); ("K1", 2); ("K0", 2)], 60);
+     ([("I", 0); ("K2", 6); ("K1", 6); ("K0", 6)], 200); ([("I", 0); ("K2", 6); ("K1", 9); ("K0", 9)], 350);
+     ([("I", 1); ("K2", 2); ("K1", 2); ("K0", 2)], 20); ([("I", 1); ("K2", 2); ("K1", 2); ("K0", 4)], 60);
+     ([("I", 1); ("K2", 2); ("K1", 10); ("K0", 10)], 180)].
+Proof.
+  split; [vm_compute; reflexivity|]. split; [intros ld E; injection E as <-; vm_compute; reflexivity|].
+  vm_compute. reflexivity.
+Qed.
+End ExamplesStack.
